@@ -447,8 +447,18 @@ func symConv(p *pathState, tdst, tsrc types.Type, x value) value {
 		if _, _, ok := intInfo(tdst); !ok {
 			abort("conversion of symbolic float to %s", tdst)
 		}
-		scaled := mkMulC(x.t, x.num)
-		q := mkTDiv(scaled, x.den)
+		num, den := x.num, x.den
+		extra := bigZero
+		if !x.seconds && den.BitLen() > 40 {
+			// the float constant (e.g. 0.1 = 3602879701896397/2^55) is replaced by the
+			// simplest fraction within relative distance 2^-50 (here 1/10); on |t| < 2^63
+			// this moves the value by less than 2^13, added to the error bound below
+			if a, b, ok := simpleFraction(num, den); ok {
+				num, den, extra = a, b, pow2(13)
+			}
+		}
+		scaled := mkMulC(x.t, num)
+		q := mkTDiv(scaled, den)
 		var e *Term
 		switch {
 		case x.seconds:
@@ -466,6 +476,7 @@ func symConv(p *pathState, tdst, tsrc types.Type, x value) value {
 		default:
 			// |relative error| <= 2^-51 on |value| < 2^64  => absolute error < 2^13 (+1 for truncation)
 			bound := new(big.Int).Add(pow2(13), bigOne)
+			bound.Add(bound, extra)
 			if x.num.Cmp(x.den) > 0 {
 				k := new(big.Int).Div(x.num, x.den)
 				bound.Mul(bound, k.Add(k, bigOne))
@@ -513,4 +524,32 @@ func (e runtimeError) Error() string   { return "runtime error: " + e.msg }
 func (e runtimeError) RuntimeError()   {}
 func runtimeErrorf(format string, args ...interface{}) runtimeError {
 	return runtimeError{msg: fmt.Sprintf(format, args...)}
+}
+
+// simpleFraction finds a/b with b <= 10^6 and |num/den - a/b| <= 2^-50 * num/den using
+// continued-fraction convergents.
+func simpleFraction(num, den *big.Int) (*big.Int, *big.Int, bool) {
+	target := new(big.Rat).SetFrac(num, den)
+	tol := new(big.Rat).Mul(target, new(big.Rat).SetFrac(bigOne, pow2(50)))
+	// convergents
+	h0, h1 := big.NewInt(0), big.NewInt(1)
+	k0, k1 := big.NewInt(1), big.NewInt(0)
+	n, d := new(big.Int).Set(num), new(big.Int).Set(den)
+	for i := 0; i < 64 && d.Sign() != 0; i++ {
+		a, r := new(big.Int).DivMod(n, d, new(big.Int))
+		h2 := new(big.Int).Add(new(big.Int).Mul(a, h1), h0)
+		k2 := new(big.Int).Add(new(big.Int).Mul(a, k1), k0)
+		h0, h1, k0, k1 = h1, h2, k1, k2
+		n, d = d, r
+		if k1.Cmp(big.NewInt(1000000)) > 0 {
+			return nil, nil, false
+		}
+		if h1.Sign() > 0 {
+			diff := new(big.Rat).Sub(target, new(big.Rat).SetFrac(h1, k1))
+			if diff.Abs(diff).Cmp(tol) <= 0 {
+				return h1, k1, true
+			}
+		}
+	}
+	return nil, nil, false
 }
